@@ -195,6 +195,18 @@ def handle (st : St) (line : String) : St × String :=
       match parseInts m, parseInts sg with
       | some m, some sg => (st, match TensorIO.loadCheck m sg with | .ok _ => "ok" | .error e => s!"err {e}")
       | _, _ => (st, "err parse")
+  | ["OUTER", src, dst, mat] =>
+      match st[src]?, st[dst]?, ((mat.splitOn ";").mapM parseMV) with
+      | some Cs, some Cd, some rows =>
+        let cols := makeOutermorphism Cs Cd rows.toArray
+        (st, showMat cols)
+      | _, _, _ => (st, "err parse")
+  | ["OUTERAPPLY", src, dst, mat, x] =>
+      match st[src]?, st[dst]?, ((mat.splitOn ";").mapM parseMV), parseMV x with
+      | some Cs, some Cd, some rows, some x =>
+        let cols := makeOutermorphism Cs Cd rows.toArray
+        (st, showMV (applyCols Cd.dims cols x) ++ " | " ++ showMV (applyCols Cs.dims (transposeCols Cd.dims cols) x))
+      | _, _, _, _ => (st, "err parse")
   | ["KIND", a, b] =>
       match Kind.ofString a, Kind.ofString b with
       | some a, some b => (st, (promote a b).toString)
